@@ -40,10 +40,12 @@ const (
 	c06CtxOverflowCaughtFinally
 	c06CtxChildInnerTry
 	c06CtxValueStackRecursion
+	c06CtxFinallyAfterOkTry
+	c06CtxReusedHandle
 	c06NumCtx
 )
 
-var c06CtxNames = []string{"plain", "callee", "child-vm", "child-of-child", "finally-pending-return", "catch", "frame-edge", "stack-edge", "wide-calls", "strings.Map-callback", "frame-overflow-caught-in-frame", "frame-overflow-through-finally", "child-vm-inner-try", "value-stack-recursion"}
+var c06CtxNames = []string{"plain", "callee", "child-vm", "child-of-child", "finally-pending-return", "catch", "frame-edge", "stack-edge", "wide-calls", "strings.Map-callback", "frame-overflow-caught-in-frame", "frame-overflow-through-finally", "child-vm-inner-try", "value-stack-recursion", "finally-after-completed-try", "invoker-handle-reused"}
 
 // sites: expression sites can sit inside wide literals; statement sites cannot
 var c06Sites = []struct {
@@ -69,6 +71,7 @@ var c06Sites = []struct {
 	{"syncmap-equal", "equal", true, "(sm%[1]d == sm%[1]db)"},
 	{"json-marshal-cycle", "-", true, "len(import(\"json\").Marshal(cy%d))"}, // a cyclic value handed to a Go encoder: an error, never a runaway recursion
 	{"vm-rem-zero", "-", true, "(7 %% (op(%d) * 0))"},                        // a Go panic raised by a VM operator (integer remainder by zero)
+	{"closure-to-text", "-", true, "len(string(rc%[1]d) + sprintf(\"%%v\", [rc%[1]d]))"}, // a recursive closure (it captures the variable that holds it) turned into text
 	{"vm-operands", "-", true, ""},                                           // a binary operator on a drawn pair of operand types (text: c06OperandExpr)
 }
 
@@ -87,7 +90,7 @@ func c06OperandExpr(k, arg int) (decl, expr string) {
 
 func c06Script(probes []c06Probe) string {
 	var sb strings.Builder
-	sb.WriteString(sim.PreludeObj)
+	sb.WriteString(sim.PreludeObj + "global calleach\n")
 	for k, p := range probes {
 		site := c06Sites[p.site]
 		text := fmt.Sprintf(site.text, k)
@@ -100,7 +103,7 @@ func c06Script(probes []c06Probe) string {
 		if site.expr {
 			stmt = "log(" + text + ")"
 		}
-		fmt.Fprintf(&sb, "o%[1]d := obj(%[1]d)\nsm%[1]d := syncmap(%[1]d)\nsm%[1]db := syncmap(%[1]d)\ncy%[1]d := {a: {}}\ncy%[1]d.b = cy%[1]d\n", k)
+		fmt.Fprintf(&sb, "o%[1]d := obj(%[1]d)\nsm%[1]d := syncmap(%[1]d)\nsm%[1]db := syncmap(%[1]d)\ncy%[1]d := {a: {}}\ncy%[1]d.b = cy%[1]d\nvar rc%[1]d\nrc%[1]d = func(n) { return n == 0 ? 0 : rc%[1]d(n - 1) }\n", k)
 		body := ""
 		switch p.ctx {
 		case c06CtxPlain:
@@ -147,6 +150,13 @@ func c06Script(probes []c06Probe) string {
 		case c06CtxValueStackRecursion:
 			// the value stack is exhausted (several slots per call) before the frame limit, under an active handler
 			body = fmt.Sprintf("\tvar v%[1]d\n\tv%[1]d = func(n, a, b, c) { return 1 + v%[1]d(n + 1, a, b, c) }\n\ttry {\n\t\tlog(\"r\", v%[1]d(0, 1, 2, 3))\n\t} catch {\n\t\tlog(\"vo%[1]d\")\n\t}\n\t%[2]s\n", k, stmt)
+		case c06CtxFinallyAfterOkTry:
+			// the finally clause of a statement whose try body completed: its own catch clause does not enclose it
+			body = fmt.Sprintf("\ttry {\n\t\tlog(\"t%[1]d\")\n\t} catch {\n\t\tlog(\"wrong%[1]d\")\n\t} finally {\n\t\tlog(\"fin%[1]d\")\n\t\t%[2]s\n\t}\n", k, stmt)
+		case c06CtxReusedHandle:
+			// one Invoker handle (pooled or not) used for a batch whose first item strikes the fault; the host tolerates
+			// failing items, and the later items must run as if nothing had happened
+			body = fmt.Sprintf("\tf%[1]d := func(i) {\n\t\tif i == 0 {\n\t\t\t%[2]s\n\t\t}\n\t\ttry {\n\t\t\tif i == 2 { throw \"own\" }\n\t\t} catch {\n\t\t\treturn i * 100\n\t\t}\n\t\treturn i * 10\n\t}\n\tlog(\"r\", calleach(f%[1]d, 0, 1, 2, 3))\n", k, stmt)
 		case c06CtxStringsMap:
 			// any of the stdlib functions that call a script function back from Go
 			switch p.depth % 5 {
@@ -421,6 +431,17 @@ func c06Run(rc *sim.RunCtx) {
 			return c
 		}
 		check := func(k int) bool {
+			if probes[k].ctx == c06CtxReusedHandle {
+				// swallowed by the host as one failed item of the batch: the statement after the batch runs, the probe's
+				// catch does not
+				return count(fmt.Sprintf("c%d", k)) == 0 && count(fmt.Sprintf("f%d", k)) == 1 && count(fmt.Sprintf("a%d", k)) == 1 && count(fmt.Sprintf("b%d", k)) == 1
+			}
+			if probes[k].ctx == c06CtxFinallyAfterOkTry && count(fmt.Sprintf("wrong%d", k)) != 0 {
+				return false
+			}
+			if probes[k].ctx == c06CtxFinallyAfterOkTry && count(fmt.Sprintf("fin%d", k)) != 1 {
+				return false
+			}
 			if probes[k].ctx == c06CtxChildInnerTry {
 				// delivered to the try statement inside the child VM's function: its catch and finally once, nothing after
 				// the site; the probe's own catch is not entered
